@@ -2,13 +2,16 @@ package main
 
 // Engine E2: denotation of a pure boolean predicate over ONE variable on a finite domain,
 // computed from syntax with go/constant. Nothing of /repo is executed: the evaluator
-// interprets only comparisons of the variable with constants, &&, ||, ! and parentheses.
+// interprets only comparisons of the variable with constants, &&, ||, !, parentheses, and calls of
+// one-line pure predicates of the module on the variable (whose body is interpreted the same way).
 
 import (
 	"go/ast"
 	"go/constant"
 	"go/token"
 	"go/types"
+
+	"golang.org/x/tools/go/types/typeutil"
 )
 
 // evalPred evaluates e with the variable (recognised by isVar) bound to val.
@@ -40,6 +43,15 @@ func evalPred(info *types.Info, e ast.Expr, isVar func(ast.Expr) bool, val int64
 				return false, false
 			}
 			return constant.Compare(lv, x.Op, rv), true
+		}
+	case *ast.CallExpr:
+		// a pure predicate of the module applied to the variable: evaluate its body
+		if len(x.Args) == 1 && isVar(ast.Unparen(x.Args[0])) {
+			if fn, ok := typeutil.Callee(info, x).(*types.Func); ok {
+				if pf, ok := predFuncs[fn]; ok && pf.param != nil {
+					return evalPred(pf.info, pf.body, isIdentOf(pf.info, pf.param), val)
+				}
+			}
 		}
 	default:
 		if tv, has := info.Types[e]; has && tv.Value != nil && tv.Value.Kind() == constant.Bool {
